@@ -32,12 +32,41 @@ func envChoice(fr *frame, what string, n int) int {
 }
 
 func registerEnvStubs() {
-	intrinsics["os.MkdirAll"] = func(fr *frame, a []value) value { return envFail(fr, "os.MkdirAll") }
-	intrinsics["os.WriteFile"] = func(fr *frame, a []value) value { return envFail(fr, "os.WriteFile") }
+	// a tiny file-system model: what was created successfully exists until RemoveAll takes it away
+	created := func(fr *frame, what string, path value) value {
+		r := envFail(fr, what)
+		if p, ok := path.(string); ok {
+			if i, isI := r.(iface); isI && i.t == nil {
+				E.envFS[p] = true
+			}
+		}
+		return r
+	}
+	intrinsics["os.MkdirAll"] = func(fr *frame, a []value) value { return created(fr, "os.MkdirAll", a[0]) }
+	intrinsics["os.WriteFile"] = func(fr *frame, a []value) value { return created(fr, "os.WriteFile", a[0]) }
+	intrinsics[VerifrtPath+".EnvExists"] = func(fr *frame, a []value) value {
+		p, _ := a[0].(string)
+		for q := range E.envFS {
+			if q == p || (len(q) > len(p) && q[:len(p)] == p && q[len(p)] == '/') {
+				return true
+			}
+		}
+		return false
+	}
+	intrinsics["os.TempDir"] = func(fr *frame, a []value) value { return "/zz/tmp" }
 	intrinsics["os.Executable"] = func(fr *frame, a []value) value { return tuple{"/zz/bin/ferret", iface{}} }
 	intrinsics["os.Stat"] = func(fr *frame, a []value) value { return tuple{iface{}, mkError(fr, "stat: no such file (environment stub)")} }
 	intrinsics["os.Getwd"] = func(fr *frame, a []value) value { return tuple{"/zz", iface{}} }
-	intrinsics["os.RemoveAll"] = func(fr *frame, a []value) value { return iface{} }
+	intrinsics["os.RemoveAll"] = func(fr *frame, a []value) value {
+		if p, ok := a[0].(string); ok {
+			for q := range E.envFS {
+				if q == p || (len(q) > len(p) && q[:len(p)] == p && q[len(p)] == '/') {
+					delete(E.envFS, q)
+				}
+			}
+		}
+		return iface{}
+	}
 	intrinsics["compiler/internal/codegen/qbe_embeddings.runQBE"] = func(fr *frame, a []value) value {
 		// the embedded QBE: exit code 0 or 1 (it rejected the IL), no Go-level error
 		return tuple{envChoice(fr, "qbe-exit-code", 2), iface{}}
